@@ -123,7 +123,7 @@ def check_case_fresh(pts, t, off):
         # off the carrier
         nx, ny = -(pts[1][1] - pts[0][1]) / L, (pts[1][0] - pts[0][0]) / L
         far = Point(q.x + nx * off, q.y + ny * off)
-        if off > 1e-6 * L * 1.01 + 1e-9 * M and seg.tOfPoint(far) != -1:
+        if off > 1e-6 * L * 1.01 + 1e-11 * M and seg.tOfPoint(far) != -1:
             return "line: a point %r away from the carrier (> 1e-6 * length) does not yield -1" % off
         return None
     if n == 3:
@@ -187,6 +187,15 @@ def search(ctx, budget):
             continue
         t = oc.rand_t(rng)
         off = 10 ** rng.uniform(-5, 2)
+        if order == 2 and (i // 3) % 4 == 1:
+            # a short line far from the origin, queried just off one of its END points: closer to the end point than 1e-9 of the
+            # coordinates, yet farther from the carrier than 1e-6 of the length
+            o = rng.choice([4e4, 2.0 ** 20, -3e5])
+            dx, dy = float(rng.randint(-9, 9)), float(rng.randint(1, 9))
+            pts = [(o, o * 0.75), (o + dx, o * 0.75 + dy)]
+            L_ = math.hypot(dx, dy)
+            t = float(rng.randrange(2))
+            off = rng.uniform(2.0e-6 * L_, max(2.1e-6 * L_, 4e-10 * abs(o)))
         inp = {"pts": pts, "t": t, "off": off}
         msg = check_case(pts, t, off)
         if msg == "skip":
